@@ -265,7 +265,7 @@ def check(prog, run):
         for n in own_nodes(f.node):
             if isinstance(n, ast.DictComp):
                 keys.append(n.key)
-            elif isinstance(n, ast.Subscript) and isinstance(n.ctx, ast.Load):
+            elif isinstance(n, ast.Subscript):        # a lookup or the item store of an index built by a loop
                 keys.append(n.slice)
             elif isinstance(n, ast.Compare) and len(n.ops) == 1 and isinstance(n.ops[0], (ast.In, ast.NotIn)):
                 keys.append(n.left)
